@@ -46,6 +46,12 @@ Proof. exact chirp_frequency. Qed.
 Print Assumptions c07_chirp.
 
 (* the centre-frequency expressions of the CURRENT source (Kernels/Gen07.v, regenerated on every run) are the model's *)
+Theorem c07_source_header : forall fch1 cbw start_chan nchans nants sr nb,
+  let h := header fch1 cbw start_chan nchans nants sr nb in
+  (OBSFREQ h == src_hdr_obsfreq fch1 cbw start_chan nchans)%Q /\ (CHAN_BW h == src_hdr_chan_bw cbw)%Q /\
+  (OBSBW h == src_hdr_obsbw cbw nchans)%Q /\ OBSNCHAN h = src_hdr_obsnchan nchans nants.
+Proof. exact k07_header. Qed.
+Print Assumptions c07_source_header.
 Theorem c07_source_kernels : forall fch1 cbw start_chan nchans nants sr nb h,
   (OBSFREQ (header fch1 cbw start_chan nchans nants sr nb) == src_center_freq fch1 cbw start_chan nchans * mhz)%Q /\
   (raw_params_fch1 h start_chan nchans == src_raw_params_fch1 (OBSFREQ h / mhz) (CHAN_BW h / mhz) start_chan nchans)%Q.
